@@ -977,11 +977,25 @@ class Index(IndexBase):
                     return self._positions[key] + offset
                 if key.dtype != DTYPE_INT_DEFAULT: #type: ignore
                     key = key.astype(DTYPE_INT_DEFAULT) #type: ignore
+                in_range = (key >= 0) & (key < self.__len__())
+                if not in_range.all():
+                    if not partial_selection:
+                        raise KeyError(key[~in_range][0])
+                    key = key[in_range]
                 return key + offset
 
+            # within a hierarchy (offset given) a label beyond this index would land in a neighbouring subtree: refuse it as any other absent label
+            length = self.__len__()
             if isinstance(key, list):
-               return [k + offset for k in key]
+                if partial_selection: # labels absent from this index are skipped, as with a mapped index
+                    return [k + offset for k in key if isinstance(k, INT_TYPES) and 0 <= k < length]
+                for k in key:
+                    if not isinstance(k, INT_TYPES) or not 0 <= k < length:
+                        raise KeyError(k)
+                return [k + offset for k in key]
             # a single element
+            if not isinstance(key, INT_TYPES) or not 0 <= key < length:
+                raise KeyError(key)
             return key + offset # type: ignore
 
         if key_transform:
